@@ -157,6 +157,23 @@ def callbacks_hand_back_registered_effects(ctx):
               "; ".join(sorted(set(bad))[:3]) or f"{n} returning paths inspected", "rzilcompiler/Transformer/RZILTransformer.py")
 
 
+def registration_goes_through_add_op(ctx):
+    """the unique suffix of a node's name is given by RZILTransformer.add_op: nobody else puts a node into the holder (a node registered
+    through the holder's own add_* keeps its base name, and two of them are declared under one C identifier)"""
+    idx = get_index(ctx.env)
+    holder_adders = {m for m in ("add_op", "add_pure", "add_effect", "add_hybrid") if idx.resolve_method("ILOpsHolder", m)}
+    ctx.need(holder_adders, "ILOpsHolder has no add_* methods")
+    callers = []
+    for q, fi in sorted(idx.funcs.items()):
+        if ".Tests" in fi.module or fi.cls == "ILOpsHolder":
+            continue
+        for c in ast.walk(fi.node):
+            if isinstance(c, ast.Call) and isinstance(c.func, ast.Attribute) and c.func.attr in holder_adders and ("il_ops_holder" in U(c.func.value) or U(c.func.value) in ("holder", "self.holder")):
+                callers.append((q, c.lineno, U(c)[:50]))
+    outside = [f"{q}:{ln} {t}" for q, ln, t in callers if q != "RZILTransformer.add_op"]
+    ctx.check("nodes enter the holder through RZILTransformer.add_op only", bool(callers) and not outside, "il_ops_holder.add_*(...) is called by add_op alone", "; ".join(outside[:3]) or "add_op alone", "rzilcompiler/Transformer/RZILTransformer.py")
+
+
 def add_op_registers_what_it_returns(ctx):
     """whatever add_op hands back is in the holder when it returns: either it was found there by name on this path, or this path put it
     there - an operand handed back unregistered (because it carries an id from an earlier registration that a folder has undone since)
@@ -181,6 +198,10 @@ def add_op_registers_what_it_returns(ctx):
 def r11_2(ctx):
     add_op_registers_what_it_returns(ctx)
     callbacks_hand_back_registered_effects(ctx)
+    registration_goes_through_add_op(ctx)
+    from .c12 import nodes_are_never_copied
+
+    nodes_are_never_copied(ctx)  # a copied operation is a second node with the same unique name: it is declared twice
     idx = get_index(ctx.env)
     fg = idx.func("ILOpsHolder.get_op_count")
     box = {}
@@ -433,6 +454,17 @@ def r11_5(ctx):
         dup = seen.get(g)
         seen.setdefault(g, n)
         ctx.check(f"getter hex_il_op_{g}", dup is None, "unique", f"also produced by {dup}" if dup else "unique", "Resources/Hexagon/Preprocessor/shortcode_resolved.h", nontrivial=False)
+    # ... and within one compiler: the registry of compiled instructions is keyed by the name the record (and its getter) carries, so
+    # two spellings of one instruction (SA2_x / A2_x, dep_x / x) share one entry instead of yielding two records with one getter name
+    ti = idx.func("Compiler.transform_insn")
+    n_st = 0
+    for q in paths_of(ti.node):
+        for e in q.events:
+            if e.kind == "store" and isinstance(e.node, ast.Subscript) and U(e.node.value).endswith("compiled_insns") and isinstance(e.extra, ast.Call) and call_tail(e.extra) == "RZILInstruction" and e.extra.args:
+                n_st += 1
+                key, name = U(e.node.slice), U(e.extra.args[0])
+                ctx.check("compiled instructions are filed under the name their record carries", key == name, f"compiled_insns[{name}] = RZILInstruction({name}, ...)", f"compiled_insns[{key}] = RZILInstruction({name}, ...)", fn_where(idx, ti))
+    ctx.check("transform_insn files its record (store found)", n_st >= 1, ">= 1 store into compiled_insns", str(n_st), fn_where(idx, ti), nontrivial=False)
 
 
 @rule("R11.6", "C11", "no stale pending effect of an earlier (failed) behaviour can enter the instruction sequence undeclared", min_instances=12)
